@@ -76,7 +76,8 @@ def hostile(draw):
         st.text(alphabet=st.sampled_from("[]:@/%.a0"), min_size=1, max_size=10).map(lambda t: "http://" + t),
     ))
     host = draw(st.sampled_from(["a", "[::1", "a:b", "", "\xff", "a:99999999", "[::1]:x"]))
-    data = f"{method} {target} HTTP/1.1\r\nHost: {host}\r\n\r\n".encode("utf-8", "surrogateescape")
+    extra = draw(st.sampled_from(["", "", "", "Content-Length: " + "9" * 5000 + "\r\n", "Content-Length: " + "0" * 4400 + "5\r\n", "Content-Length: 99999999999999999999999\r\n"]))
+    data = f"{method} {target} HTTP/1.1\r\nHost: {host}\r\n{extra}\r\n".encode("utf-8", "surrogateescape")
     return {"kind": "request", "stream": data, "cls": "hostile_target", "cuts": []}
 
 
